@@ -11,7 +11,7 @@ from props import _access as A
 
 
 def run(ctx):
-    ctx.level = "proof"
+    ctx.level = "other"   # exhaustive tables, but open findings: see MANIFEST text
     ctx.extra["exhaustive"] = True
     ctx.explanation = (
         "Decides commutativity, idempotence and associativity of the per-member step M(x, y) of state::merge (x from "
@@ -76,8 +76,8 @@ def run(ctx):
 
 
 MANIFEST = {
-    "category": "proof",
+    "category": "other",
     "technique": "decision table of the per-member merge step (forking abstract interpretation, loop-carried variables as symbols) + exhaustive enumeration of the CRDT laws over the finite abstract domain",
-    "text": "Proof of the table clause: the merge step only compares counters and access values, so commutativity, idempotence and associativity are decided by enumerating every ordering scenario; whole-state laws follow pointwise. Falls back to level other while a finding is open.",
+    "text": "Proof of the table clause: the merge step only compares counters and access values, so commutativity, idempotence and associativity are decided by enumerating every ordering scenario; whole-state laws follow pointwise. Claimed as level other: the enumeration is exhaustive, but the laws do NOT hold for accesses with ordered conditions (open known findings C32.2), so not every obligation is discharged.",
     "note": "Trusted: rustc MIR, driver, abstract interpreter; HashMap get_mut/insert semantics.",
 }
